@@ -97,6 +97,14 @@ func cfCatalogue() []cfRule {
 		{group: "cf5", pats: []string{`(?P<who>\w+)\)(?P<t>.*)`, `(?P<t>X+)\((?P<who>)`}, at: "who", sugg: "$who$t$tag"},
 		{group: "cf6", pats: []string{`(?P<tagx>[a-z]+)\((?P<tag>[a-z]+)\)`}, filt: []cfAtom{{"tag", "==", "arr"}}, msg: "lower $tagx of $tag"},
 		{group: "cf7", pats: []string{`(?P<tag>[a-z]+)\((?P<tagx>[a-z]+)\)`}, msg: "lower $tagx in $tag", at: "tagx", sugg: "$tag"},
+		// named groups in the SHORT spelling `(?<name>re)` (Go >= 1.22) -- alone, mixed with the long one in one regexp, one
+		// alternative in either spelling, next to an unnamed group: a group is a group however it is written (Report, Suggest,
+		// At and Where read it). The same names as above, so a comment that an earlier rule matched and rejected comes with
+		// left-overs here, too.
+		{group: "cf8", pats: []string{`@(?P<tag>\w+) (?<who>\w+)/(?<t>\w*)`}, filt: []cfAtom{{"t", "!=", ""}}, at: "t", msg: "$tag of $who/$t", sugg: "$t"},
+		{group: "cf9", pats: []string{`@\w+ (?<tag>\w+)/?(?<who>\w*)`, `#(?P<who>\d+)(?P<tag>)`, `GH-(?<who>\d+)(?<tag>)`}, filt: []cfAtom{{"tag", "!=", "nobody"}, {"who", "!~", `^0`}},
+			at: "tag", sugg: "<$who|$tag|$$>"},
+		{group: "cf10", pats: []string{`(\w+)=(?<tagx>\w+)`}, msg: "$tagx set in $$ ($tag)"},
 	}
 	for i := range rules {
 		rules[i].compile()
@@ -126,6 +134,22 @@ func cfComments(rng *rand.Rand) []string {
 		"// see q(arr)",
 		"//TODO(b2):FIXME(",
 		"// HACK(alice)",
+		"// @owner alice/core",
+		"// @owner bob",
+		"// @owner nobody",
+		"// @reviewer carol/",
+		"// [carol] @owner dave/core",
+		"// [carol] @cc frank",
+		"// fixes #123, not #099",
+		"// [carol] see GH-77 and #5",
+		"// see #012 or GH-7",
+		"// retries=3 @max nobody",
+		"/* @a b/\n   @d e/f */",
+	}
+	for i := 0; i < 4; i++ {
+		c := "// " + []string{"", "[carol] ", "[erin] "}[rng.Intn(3)] + "@" + strings.ToLower(cfTags[rng.Intn(len(cfTags))]) + " " + cfWhos[rng.Intn(len(cfWhos))]
+		c += []string{"", "/", "/core", "/x y=z"}[rng.Intn(4)]
+		cs = append(cs, c)
 	}
 	for i := 0; i < 6; i++ {
 		cs = append(cs, "// "+cfTags[rng.Intn(len(cfTags))]+"("+cfWhos[rng.Intn(len(cfWhos))]+")"+cfTails[rng.Intn(len(cfTails))])
